@@ -405,7 +405,7 @@ NOT_APPLICABLE = {
 
 # ---------------------------------------------------------------------------------------------
 def run_kani(prop, obls, tier, seed):
-    tmo = 240 if tier == "quick" else 1500
+    tmo = 420 if tier == "quick" else 1500
     return kani_engine.run_harnesses(obls, timeout_s=tmo, tag=prop)
 
 
